@@ -45,5 +45,28 @@ let handle = function
     let s = read_dstate () in
     let req = listn (fun () -> let x = nn () in let f = next_bool () in (x, f)) in
     (match delete_symbols req s with Err e -> "err " ^ err_name e | Ok s' -> dump_dstate s')
+  | "retarget" ->
+    let syms = listn (fun () -> let id = nn () in let r = onat () in let d = next_bool () in let c = next_bool () in
+                       (id, { s_ref = r; s_defined = d; s_cfgnode = c })) in
+    let rules = listn (fun () -> let i = listn nn in let e = listn nn in let a = listn nn in { ru_int = i; ru_ext = e; ru_access = a }) in
+    let rmap = listn (fun () -> let a = nn () in let b = nn () in (a, b)) in
+    let sites = listn (fun () -> let iv = nn () in let off = next_z () in let c = next_bool () in let sy = listn nn in let ad = next_z () in
+                        let at = listn nn in let nb = nn () in let blk = onat () in let bc = next_bool () in let acc = nn () in
+                        { xs_key = (iv, off); xs_expr = { x_const = c; x_syms = sy; x_addend = ad; x_attrs = at };
+                          xs_nblocks = nb; xs_block = blk; xs_block_cfg = bc; xs_access = acc }) in
+    let cfi = listn (fun () -> let k = nn () in (k, listn (fun () -> let t = nn () in let sy = onat () in (t, sy)))) in
+    let fwd = listn (fun () -> let a = nn () in let b = nn () in (a, b)) in
+    let edges = listn (fun () -> let a = nn () in let b = nn () in let y = nn () in ((a, b), y)) in
+    let st = { r_sites = sites; r_cfi = cfi; r_fwd = fwd; r_edges = edges } in
+    (match retarget_symbol_uses syms rules rmap st with
+     | Err e -> "err " ^ err_name e
+     | Ok s' ->
+       cat " | " [
+         "sites " ^ cat ";" (sorted (List.map (fun x -> let (iv, off) = x.xs_key in
+             si iv ^ "+" ^ str_of_z off ^ ":" ^ (if x.xs_expr.x_const then "C" else "A") ^ cat "," (List.map si x.xs_expr.x_syms) ^ "+" ^ str_of_z x.xs_expr.x_addend ^
+             "{" ^ cat "," (sorted (List.map si x.xs_expr.x_attrs)) ^ "}") s'.r_sites));
+         "cfi " ^ cat ";" (sorted (List.map (fun (k, ds) -> si k ^ "=" ^ cat "/" (List.map (fun (t, sy) -> si t ^ (match sy with None -> "null" | Some x -> "s" ^ si x)) ds)) s'.r_cfi));
+         "fwd " ^ cat "," (sorted (List.map (fun (a, b) -> si a ^ ">" ^ si b) s'.r_fwd));
+         "edges " ^ cat "," (sorted (List.map (fun ((a, b), y) -> si a ^ ">" ^ si b ^ ":" ^ si y) s'.r_edges)) ])
   | c -> failwith ("unknown command " ^ c)
 let () = main_loop handle
